@@ -77,7 +77,7 @@ def quiet(fn, *a, **k):
 GPA = 14710.507848260711      # 1 Ry/bohr^3 in GPa
 
 
-def synthetic_texts(seed=0, nv=8, nq=3, na=2, system="orthorhombic", lattice=True, gamma_first=True, static_order="descending", static_nv=None):
+def synthetic_texts(seed=0, nv=8, nq=3, na=2, system="orthorhombic", lattice=True, gamma_first=True, static_order="descending", static_nv=None, flat_modes=False):
     """-> (input01 text, input02 text, description dict).  E(V) quadratic in Eulerian strain (B0 ~ 200 GPa), power-law modes with mode-dependent Grueneisen parameters"""
     import io as _io
     from cij.io.traditional import qha_input as qi
@@ -90,6 +90,10 @@ def synthetic_texts(seed=0, nv=8, nq=3, na=2, system="orthorhombic", lattice=Tru
     npm = 3 * na
     w0 = rnd.uniform(120.0, 900.0, size=(nq, npm))
     g = rnd.uniform(0.6, 2.4, size=(nq, npm))
+    if flat_modes:
+        # branches that do not move with volume (gamma = 0) or hardly (gamma = 2e-6): positive frequencies like any other
+        g[nq - 1, npm - 1] = 0.0
+        g[0, npm - 2] = 2e-6
     coords = [(0.0, 0.0, 0.0)] + [tuple(numpy.round(rnd.uniform(0.05, 0.5, size=3), 4)) for _ in range(nq - 1)]
     if not gamma_first:
         coords[0] = (0.125, 0.125, 0.125)
@@ -132,14 +136,18 @@ def synthetic_texts(seed=0, nv=8, nq=3, na=2, system="orthorhombic", lattice=Tru
     if lattice:
         lines.append(" lattice_a lattice_b lattice_c ")
         r = numpy.array([1.0, 1.12, 0.93])
+        c1, c2 = numpy.array([0.15, -0.1, -0.05]), numpy.array([0.5, 0.2, -0.7])
+        if lattice == "pseudo_cubic":
+            # nearly, but not, cubic: the three axial strain fractions differ by a few 1e-4 (distinct strain classes that a sloppy comparison would merge)
+            r, c1, c2 = numpy.array([1.0, 1.0008, 0.9994]), numpy.array([0.0016, 0.0, -0.0016]), numpy.array([0.0, 0.001, -0.001])
         for i in range(len(Vs)):
-            ratio = r * (1.0 + numpy.array([0.15, -0.1, -0.05]) * fs[i] + numpy.array([0.5, 0.2, -0.7]) * fs[i] ** 2)
+            ratio = r * (1.0 + c1 * fs[i] + c2 * fs[i] ** 2)
             a = (Vs[i] / numpy.prod(ratio)) ** (1.0 / 3.0) * ratio
-            row = ["%.6f" % x for x in a]
+            row = [("%.10f" if lattice == "pseudo_cubic" else "%.6f") % x for x in a]
             table["lattice"].append([float(x) for x in row])
             lines.append(" ".join(row))
     t2 = "\n".join(lines) + "\n"
-    return t1, t2, {"V": V.tolist(), "nq": nq, "na": na, "system": system, "lattice": lattice, "gamma_first": gamma_first, "weights": weights, "static_order": static_order,
+    return t1, t2, {"V": V.tolist(), "nq": nq, "na": na, "system": system, "lattice": lattice, "gamma_first": gamma_first, "flat_modes": flat_modes, "weights": weights, "static_order": static_order,
                     "table": table}
 
 
